@@ -53,7 +53,7 @@ def cfg_text(p, spec="Spec", invariants=True):
 def params(thorough):
     if thorough:
         return {"MaxBits": 10, "MaxFields": 3, "NestedMaxFields": 2, "MaxNested": 1, "InnerMaxFields": 3, "MaxArr": 3,
-                "FullBits": 3, "Leaves": ALL_LEAVES, "InnerLeaves": ALL_LEAVES, "SibLeaves": ALL_LEAVES,
+                "FullBits": 3, "Leaves": ALL_LEAVES, "InnerLeaves": ["u1", "s3", "e2", "f3", "se2"], "SibLeaves": ALL_LEAVES,
                 "FlexOffs": [0, 2], "FlexPads": [0, 1], "EnumClasses": ENUM_CLASSES}
     return {"MaxBits": 8, "MaxFields": 3, "NestedMaxFields": 2, "MaxNested": 1, "InnerMaxFields": 2, "MaxArr": 3,
             "FullBits": 3, "Leaves": ALL_LEAVES, "InnerLeaves": ["u1", "s2", "e2", "f3"], "SibLeaves": ALL_LEAVES,
@@ -61,10 +61,10 @@ def params(thorough):
 
 
 def params_b(thorough):
-    """second family (thorough): three fields next to a nested layout, two nested layouts"""
-    return {"MaxBits": 10, "MaxFields": 1, "NestedMaxFields": 3, "MaxNested": 2, "InnerMaxFields": 2, "MaxArr": 2,
-            "FullBits": 3, "Leaves": ["u1", "s2", "se2", "f3"], "InnerLeaves": ["u1", "s3", "e2", "se2"],
-            "SibLeaves": ["u1", "s2", "se2", "f3"], "FlexOffs": [1], "FlexPads": [1], "EnumClasses": []}
+    """second family (thorough): three fields of which one or two are nested layouts"""
+    return {"MaxBits": 10, "MaxFields": 1, "NestedMaxFields": 3, "MaxNested": 2, "InnerMaxFields": 1, "MaxArr": 2,
+            "FullBits": 3, "Leaves": ["u1", "s2", "se2"], "InnerLeaves": ["s3", "e2", "f3"],
+            "SibLeaves": ["u1", "s2", "se2"], "FlexOffs": [1], "FlexPads": [1], "EnumClasses": []}
 
 
 # =============================================================================================
@@ -227,14 +227,14 @@ class LayoutCase:
         n = self.nodes[j]
         return n["k"] != "enum" or v in self.paths[j]["valid"]
 
-    def fill(self, node, t, row, members):
-        """template + row of values -> Python initialiser"""
+    def fill(self, node, t, row, members, crow=None):
+        """template + row of values (+ row of the complemented pattern for negative indexes) -> Python initialiser"""
         if is_leaf(node):
-            v = row[t - 1]
+            v = row[t - 1] if t > 0 else crow[-t - 1]
             if node["k"] == "enum" and members:
                 return make_enum(node)(v)
             return v
-        items = [(pos, self.fill(sub(node, pos), st, row, members)) for pos, st in t]
+        items = [(pos, self.fill(sub(node, pos), st, row, members, crow)) for pos, st in t]
         if node["k"] == "array":
             if [p for p, _ in items] == list(range(1, node["n"] + 1)):
                 return [x for _, x in items]
@@ -415,9 +415,10 @@ def check_consts(lc, out, opts):
     # ---- further initialisers: partial, reversed, single union member, empty; Signal(init=) ----
     for x, raw in enumerate(tab["xraws"]):
         row = tab["vals"][raw]
+        crow = tab["vals"][(1 << lc.size) - 1 - raw]
         for y, t in enumerate(tab["xtmpl"]):
             want = tab["xconst"][x][y]
-            inits = [lc.fill(top, t, row, members=bool((x + y) % 2))]
+            inits = [lc.fill(top, t, row, bool((x + y) % 2), crow)]
             if t == ():
                 inits.append(None)
             for init in inits:
@@ -517,7 +518,7 @@ def build_dut(lc, idx, m, out, opts):
                           "%s: view%r has shape %r, specification %r" % (lc.desc, list(lc.pkeys[j]), fv.shape(), want_shape), top)
         d.fields[j] = f
         d.fvals[j] = fv
-        o = Signal(want_shape, name="l%d_o%d" % (idx, j))
+        o = Signal(signed(lc.paths[j]["w"] + 2), name="l%d_o%d" % (idx, j))      # value preserving for either signedness
         sub_m.d.comb += o.eq(fv)
         d.outs[j] = o
         vin = Signal(signed(lc.paths[j]["w"] + 2), name="l%d_v%d" % (idx, j))
@@ -544,7 +545,7 @@ def build_dut(lc, idx, m, out, opts):
         try:
             dv = _walk(d.sig, keys)[idxs]
             dvv = Value.cast(dv)
-            do = Signal(Shape(lc.paths[ej]["w"], lc.paths[ej]["s"]), name="l%d_do%d" % (idx, len(d.dyn)))
+            do = Signal(signed(lc.paths[ej]["w"] + 2), name="l%d_do%d" % (idx, len(d.dyn)))
             sub_m.d.comb += do.eq(dvv)
             dvin = Signal(signed(lc.paths[ej]["w"] + 2), name="l%d_dv%d" % (idx, len(d.dyn)))
             dct = mk("dc%d" % len(d.dyn))
@@ -564,13 +565,199 @@ def _in_range(desc, v):
     return (-(1 << (w - 1)) <= v < (1 << (w - 1))) if desc["s"] else (0 <= v < (1 << w))
 
 
-def sim_batch(cases, out, opts):
-    from amaranth.hdl import Module, Value
+def _fk(lc, j):
+    return lc.paths[j]["kind"] if not is_leaf(lc.nodes[j]) else lc.nodes[j]["name"]
+
+
+def _sim_reads(ctx, d, out, opts):
+    """every field of every bit pattern: interpreted, compiled, and lifted through from_bits"""
+    from amaranth.hdl import Value
     from amaranth.lib import data
+    lc, tab = d.lc, d.lc.tab
+    sv = d.sig.as_value()
+    bad = lambda clause, desc, **kw: out.violation(lc.key(clause, **kw), "%s: %s" % (lc.desc, desc), lc.top)
+    for raw in range(1 << lc.size):
+        row = tab["vals"][raw]
+        ctx.set(sv, raw)
+        out.count("sim_pairs")
+        for j in range(lc.P):
+            if d.fvals[j] is None:
+                continue
+            g1 = ctx.get(d.fvals[j])
+            g2 = ctx.get(d.outs[j])
+            out.count("sim_reads", 2)
+            if g1 != row[j] or g2 != row[j]:
+                bad("field_value", "view%r of pattern %d: ctx.get(field) = %r, compiled copy = %r, specification "
+                    "FieldOf = %r" % (list(lc.pkeys[j]), raw, g1, g2, row[j]), api="sim_get", field_kind=_fk(lc, j))
+            f = d.fields[j]
+            if not isinstance(f, Value) and lc.valid_leaf(j, row[j]):
+                try:
+                    g3 = ctx.get(f)      # through ShapeCastable.from_bits
+                    out.count("sim_reads")
+                    if _num(g3) != row[j]:
+                        bad("field_value", "ctx.get(view%r) of pattern %d = %r, specification %r" % (
+                            list(lc.pkeys[j]), raw, g3, row[j]), api="sim_get_cast", field_kind=_fk(lc, j))
+                except Exception as e:
+                    bad("field_value", "ctx.get(view%r) of pattern %d raised %r" % (list(lc.pkeys[j]), raw, e),
+                        api="sim_get_cast", error=_exc(e), field_kind=_fk(lc, j))
+        if raw % 5 == 0:
+            try:
+                g = ctx.get(d.sig)
+                if not isinstance(g, data.Const) or g.as_bits() != raw:
+                    bad("from_bits_as_bits", "ctx.get(view) of pattern %d = %r" % (raw, g), api="sim_get_cast")
+            except Exception as e:
+                bad("from_bits_as_bits", "ctx.get(view) of pattern %d raised %r" % (raw, e), api="sim_get_cast", error=_exc(e))
+        for q, n, idxs, dv, dvv, do, dvin, dct in d.dyn:
+            for i in range(n):
+                ctx.set(idxs, i)
+                want = row[lc.pidx[q + (i + 1,)]]
+                g1, g2 = ctx.get(dvv), ctx.get(do)
+                out.count("sim_dyn_reads", 2)
+                if g1 != want or g2 != want:
+                    bad("field_value", "view%r[Signal=%d] of pattern %d: ctx.get = %r, compiled = %r, specification %r"
+                        % (list(lc.pkeys[lc.pidx[q]]) if q else [], i, raw, g1, g2, want), api="sim_dynamic_index")
+
+
+def _asg_setup(ctx, d, out, opts, r):
+    """round r of the assignment test: choose (pattern, value) per path, drive the inputs"""
+    lc, tab = d.lc, d.lc.tab
+    nr = len(tab["asgraws"])
+    x = (r * 7 + opts["seed"]) % nr if r >= nr else r
+    raw = tab["asgraws"][x]
+    ctx.set(d.sig.as_value(), raw)
+    ys = [None] * lc.P
+    for j in range(lc.P):
+        if d.vin[j] is None:
+            continue
+        vs = tab["asgvals"][j]
+        y = (r + (r // len(vs)) * (j + 1)) % len(vs)
+        ys[j] = y
+        ctx.set(d.vin[j], vs[y])
+    dyn = []
+    for q, n, idxs, dv, dvv, do, dvin, dct in d.dyn:
+        i = r % n
+        ej = lc.pidx[q + (i + 1,)]
+        y = (r // n) % len(tab["asgvals"][ej])
+        ctx.set(idxs, i)
+        ctx.set(dvin, tab["asgvals"][ej][y])
+        dyn.append((i, ej, y))
+    return (x, raw, ys, dyn)
+
+
+def _asg_comb(ctx, d, out, opts, plan):
+    x, raw, ys, dyn = plan
+    return ([ctx.get(d.comb_t[j].as_value()) if ys[j] is not None else None for j in range(d.lc.P)],
+            [ctx.get(t[7].as_value()) for t in d.dyn])
+
+
+def _asg_check(ctx, d, out, opts, plan, comb):
+    lc, tab = d.lc, d.lc.tab
+    x, raw, ys, dyn = plan
+    cg, dg = comb
+    for j in range(lc.P):
+        if ys[j] is None:
+            continue
+        want = tab["asg"][j][x][ys[j]]
+        sg = ctx.get(d.sync_t[j].as_value())
+        out.count("sim_assign", 2)
+        if cg[j] != want or sg != want:
+            out.violation(lc.key("assign_field", api="comb" if cg[j] != want else "sync", field_kind=_fk(lc, j)),
+                          "%s: pattern %d, view%r.eq(%d): comb gives %r, sync gives %r, specification AssignField "
+                          "= %r" % (lc.desc, raw, list(lc.pkeys[j]), tab["asgvals"][j][ys[j]], cg[j], sg, want), lc.top)
+    for (i, ej, y), g, t in zip(dyn, dg, d.dyn):
+        want = tab["asg"][ej][x][y]
+        out.count("sim_assign")
+        if g != want:
+            out.violation(lc.key("assign_field", api="comb_dynamic_index"),
+                          "%s: pattern %d, view%r[Signal=%d].eq(%d): comb gives %r, specification %r" % (
+                              lc.desc, raw, list(lc.pkeys[lc.pidx[t[0]]]) if t[0] else [], i, tab["asgvals"][ej][y], g, want), lc.top)
+
+
+def _sim_sets(ctx, d, out, opts):
+    """assignment by ctx.set(view field, value) and ctx.set(view, constant / initialiser)"""
+    from amaranth.lib import data
+    lc, tab = d.lc, d.lc.tab
+    sv = d.sig.as_value()
+    for r in range(opts["set_rounds"]):
+        for j in range(lc.P):
+            f = d.fields[j]
+            if f is None:
+                continue
+            vs = tab["asgvals"][j]
+            ok = [y for y in range(len(vs)) if _in_range(lc.paths[j], vs[y]) and lc.valid_leaf(j, vs[y])]
+            if not ok:
+                continue
+            y = ok[(r * 3 + j) % len(ok)]
+            x = (r + j) % len(tab["asgraws"])
+            raw, v, want = tab["asgraws"][x], vs[y], tab["asg"][j][x][y]
+            node = lc.nodes[j]
+            if node["k"] == "enum":
+                val = make_enum(node)(v)
+            elif is_leaf(node):
+                val = v
+            else:
+                val = data.Layout.cast(f.shape()).from_bits(v)
+            ctx.set(sv, raw)
+            try:
+                ctx.set(f, val)
+            except Exception as e:
+                if not is_leaf(node):
+                    out.violation({"clause": "const_of_from_bits", "layout_kind": KIND_NAME[node["k"]],
+                                   "error": _exc(e), "op": "ctx.set"},
+                                  "%s: ctx.set(view%r, %s.from_bits(%d)) raised %r" % (
+                                      lc.desc, list(lc.pkeys[j]), KIND_NAME[node["k"]], v, e), lc.top)
+                    ctx.set(d.fvals[j], v)
+                else:
+                    out.violation(lc.key("assign_field", api="ctx.set", error=_exc(e)),
+                                  "%s: ctx.set(view%r, %r) raised %r" % (lc.desc, list(lc.pkeys[j]), val, e), lc.top)
+                    continue
+            got = ctx.get(sv)
+            out.count("sim_set")
+            if got != want:
+                out.violation(lc.key("assign_field", api="ctx.set", field_kind=_fk(lc, j)),
+                              "%s: pattern %d, ctx.set(view%r, %r) gives %r, specification AssignField = %r" % (
+                                  lc.desc, raw, list(lc.pkeys[j]), val, got, want), lc.top)
+    for x, raw in enumerate(tab["xraws"][:4]):
+        if not tab["initok"][raw]:
+            continue
+        want = tab["packed"][raw]
+        for val in (lc.layout.from_bits(want), lc.fill(lc.top, tab["tmpl"], tab["vals"][raw], True)):
+            try:
+                ctx.set(sv, 0)
+                ctx.set(d.sig, val)
+                got = ctx.get(sv)
+                out.count("sim_set")
+                if got != want:
+                    out.violation(lc.key("const_from_fields", api="ctx.set"),
+                                  "%s: ctx.set(view, %r) gives %r, specification %r" % (lc.desc, val, got, want), lc.top)
+            except Exception as e:
+                if isinstance(val, data.Const):
+                    out.violation({"clause": "const_of_from_bits", "layout_kind": lc.kind, "error": _exc(e), "op": "ctx.set"},
+                                  "%s: ctx.set(view, layout.from_bits(%d)) raised %r" % (lc.desc, want, e), lc.top)
+                elif lc.has_signed_enum:
+                    out.violation({"clause": "signed_enum_field", "op": "const_init", "error": _exc(e)},
+                                  "%s: ctx.set(view, %r) raised %r" % (lc.desc, val, e), lc.top)
+                else:
+                    out.violation(lc.key("const_from_fields", api="ctx.set", error=_exc(e)),
+                                  "%s: ctx.set(view, %r) raised %r" % (lc.desc, val, e), lc.top)
+
+
+def sim_batch(cases, out, opts):
+    from amaranth.hdl import Module
     from amaranth.sim import Simulator, Period
     from amaranth.back import rtlil
     m = Module()
-    duts = [build_dut(lc, i, m, out, opts) for i, lc in enumerate(cases)]
+    duts = []
+    for i, lc in enumerate(cases):
+        try:
+            duts.append(build_dut(lc, i, m, out, opts))
+        except MachineryError:
+            raise
+        except Exception as e:
+            out.violation(lc.key("view_construct", error=_exc(e)), "%s: building views of the layout raised %r" % (lc.desc, e),
+                          lc.top)
+    if not duts:
+        return
     ports = [p for d in duts for p in d.ports]
     if opts["rtlil"]:
         try:
@@ -581,7 +768,7 @@ def sim_batch(cases, out, opts):
             out.count("rtlil_designs")
             out.count("rtlil_bytes", len(text))
         except Exception as e:
-            out.violation({"clause": "rtlil_convert", "error": _exc(e)},
+            out.violation({"clause": "rtlil_convert", "error": _exc(e), "signed_enum": any(lc.has_signed_enum for lc in cases)},
                           "rtlil.convert of a design with views of %d layouts (first %s) raised %r" % (
                               len(cases), cases[0].desc, e), cases[0].top)
     sim = Simulator(m)
@@ -589,174 +776,34 @@ def sim_batch(cases, out, opts):
     if any_sync:
         sim.add_clock(Period(MHz=1))
     rounds = opts["asg_rounds"] if any_sync else 0
+    dead = set()
+
+    def guard(d, fn, ctx, *args):
+        """an exception of the code under test while exercising one layout is a violation, not a crash"""
+        if id(d) in dead:
+            return None
+        try:
+            return fn(ctx, d, out, opts, *args)
+        except MachineryError:
+            raise
+        except Exception as e:
+            dead.add(id(d))
+            out.violation(d.lc.key("sim_exception", error=_exc(e), stage=fn.__name__.strip("_")),
+                          "%s: %s raised %r" % (d.lc.desc, fn.__name__.strip("_"), e), d.lc.top)
+            return None
 
     async def tb(ctx):
-        # ---- reads: every field of every bit pattern ----
         for d in duts:
-            lc, tab = d.lc, d.lc.tab
-            sv = d.sig.as_value()
-            bad = lambda clause, desc, **kw: out.violation(lc.key(clause, **kw), "%s: %s" % (lc.desc, desc), lc.top)
-            for raw in range(1 << lc.size):
-                row = tab["vals"][raw]
-                ctx.set(sv, raw)
-                out.count("sim_pairs")
-                for j in range(lc.P):
-                    if d.fvals[j] is None:
-                        continue
-                    g1 = ctx.get(d.fvals[j])
-                    g2 = ctx.get(d.outs[j])
-                    out.count("sim_reads", 2)
-                    if g1 != row[j] or g2 != row[j]:
-                        bad("field_value", "view%r of pattern %d: ctx.get(field) = %r, compiled copy = %r, specification "
-                            "FieldOf = %r" % (list(lc.pkeys[j]), raw, g1, g2, row[j]), api="sim_get",
-                            field_kind=lc.paths[j]["kind"] if not is_leaf(lc.nodes[j]) else lc.nodes[j]["name"])
-                    f = d.fields[j]
-                    if not isinstance(f, Value) and lc.valid_leaf(j, row[j]):
-                        try:
-                            g3 = ctx.get(f)      # through ShapeCastable.from_bits
-                            out.count("sim_reads")
-                            if _num(g3) != row[j]:
-                                bad("field_value", "ctx.get(view%r) of pattern %d = %r, specification %r" % (
-                                    list(lc.pkeys[j]), raw, g3, row[j]), api="sim_get_cast")
-                        except Exception as e:
-                            bad("field_value", "ctx.get(view%r) of pattern %d raised %r" % (list(lc.pkeys[j]), raw, e),
-                                api="sim_get_cast", error=_exc(e))
-                if raw % 5 == 0:
-                    try:
-                        g = ctx.get(d.sig)
-                        if not isinstance(g, data.Const) or g.as_bits() != raw:
-                            bad("from_bits_as_bits", "ctx.get(view) of pattern %d = %r" % (raw, g), api="sim_get_cast")
-                    except Exception as e:
-                        bad("from_bits_as_bits", "ctx.get(view) of pattern %d raised %r" % (raw, e), api="sim_get_cast", error=_exc(e))
-                for q, n, idxs, dv, dvv, do, dvin, dct in d.dyn:
-                    for i in range(n):
-                        ctx.set(idxs, i)
-                        want = row[lc.pidx[q + (i + 1,)]]
-                        g1, g2 = ctx.get(dvv), ctx.get(do)
-                        out.count("sim_dyn_reads", 2)
-                        if g1 != want or g2 != want:
-                            bad("field_value", "view%r[Signal=%d] of pattern %d: ctx.get = %r, compiled = %r, specification %r"
-                                % (list(q), i, raw, g1, g2, want), api="sim_dynamic_index")
-        # ---- assignments in comb and sync: one round = one (pattern, value) choice per path ----
+            guard(d, _sim_reads, ctx)
         for r in range(rounds):
-            plan = []
-            for d in duts:
-                lc, tab = d.lc, d.lc.tab
-                nr = len(tab["asgraws"])
-                x = (r * 7 + opts["seed"]) % nr if r >= nr else r
-                raw = tab["asgraws"][x]
-                ctx.set(d.sig.as_value(), raw)
-                ys = [None] * lc.P
-                for j in range(lc.P):
-                    if d.vin[j] is None:
-                        continue
-                    vs = tab["asgvals"][j]
-                    y = (r + (r // len(vs)) * (j + 1)) % len(vs)
-                    ys[j] = y
-                    ctx.set(d.vin[j], vs[y])
-                dyn = []
-                for q, n, idxs, dv, dvv, do, dvin, dct in d.dyn:
-                    i = r % n
-                    ej = lc.pidx[q + (i + 1,)]
-                    y = (r // n) % len(tab["asgvals"][ej])
-                    ctx.set(idxs, i)
-                    ctx.set(dvin, tab["asgvals"][ej][y])
-                    dyn.append((i, ej, y))
-                plan.append((x, raw, ys, dyn))
-            combs = []
-            for d, (x, raw, ys, dyn) in zip(duts, plan):
-                combs.append(([ctx.get(d.comb_t[j].as_value()) if ys[j] is not None else None for j in range(d.lc.P)],
-                              [ctx.get(t[7].as_value()) for t in d.dyn]))
+            plans = [guard(d, _asg_setup, ctx, r) for d in duts]
+            combs = [guard(d, _asg_comb, ctx, pl) if pl is not None else None for d, pl in zip(duts, plans)]
             await ctx.tick()
-            for d, (x, raw, ys, dyn), (cg, dg) in zip(duts, plan, combs):
-                lc, tab = d.lc, d.lc.tab
-                for j in range(lc.P):
-                    if ys[j] is None:
-                        continue
-                    want = tab["asg"][j][x][ys[j]]
-                    sg = ctx.get(d.sync_t[j].as_value())
-                    out.count("sim_assign", 2)
-                    if cg[j] != want or sg != want:
-                        out.violation(lc.key("assign_field", api="comb" if cg[j] != want else "sync",
-                                             field_kind=lc.paths[j]["kind"] if not is_leaf(lc.nodes[j]) else lc.nodes[j]["name"]),
-                                      "%s: pattern %d, view%r.eq(%d): comb gives %r, sync gives %r, specification AssignField "
-                                      "= %r" % (lc.desc, raw, list(lc.pkeys[j]), tab["asgvals"][j][ys[j]], cg[j], sg, want), lc.top)
-                for (i, ej, y), g, t in zip(dyn, dg, d.dyn):
-                    want = tab["asg"][ej][x][y]
-                    out.count("sim_assign")
-                    if g != want:
-                        out.violation(lc.key("assign_field", api="comb_dynamic_index"),
-                                      "%s: pattern %d, view%r[Signal=%d].eq(%d): comb gives %r, specification %r" % (
-                                          lc.desc, raw, list(t[0]), i, tab["asgvals"][ej][y], g, want), lc.top)
-        # ---- assignment by ctx.set(view field, value) ----
+            for d, pl, cb in zip(duts, plans, combs):
+                if pl is not None and cb is not None:
+                    guard(d, _asg_check, ctx, pl, cb)
         for d in duts:
-            lc, tab = d.lc, d.lc.tab
-            sv = d.sig.as_value()
-            for r in range(opts["set_rounds"]):
-                for j in range(lc.P):
-                    f = d.fields[j]
-                    if f is None:
-                        continue
-                    vs = tab["asgvals"][j]
-                    ok = [y for y in range(len(vs)) if _in_range(lc.paths[j], vs[y]) and lc.valid_leaf(j, vs[y])]
-                    if not ok:
-                        continue
-                    y = ok[(r * 3 + j) % len(ok)]
-                    x = (r + j) % len(tab["asgraws"])
-                    raw, v, want = tab["asgraws"][x], vs[y], tab["asg"][j][x][y]
-                    node = lc.nodes[j]
-                    if node["k"] == "enum":
-                        val = make_enum(node)(v)
-                    elif is_leaf(node):
-                        val = v
-                    else:
-                        val = data.Layout.cast(f.shape()).from_bits(v)
-                    ctx.set(sv, raw)
-                    try:
-                        ctx.set(f, val)
-                    except Exception as e:
-                        if not is_leaf(node):
-                            out.violation({"clause": "const_of_from_bits", "layout_kind": KIND_NAME[node["k"]],
-                                           "error": _exc(e), "op": "ctx.set"},
-                                          "%s: ctx.set(view%r, %s.from_bits(%d)) raised %r" % (
-                                              lc.desc, list(lc.pkeys[j]), KIND_NAME[node["k"]], v, e), lc.top)
-                            ctx.set(d.fvals[j], v)
-                        else:
-                            out.violation(lc.key("assign_field", api="ctx.set", error=_exc(e)),
-                                          "%s: ctx.set(view%r, %r) raised %r" % (lc.desc, list(lc.pkeys[j]), val, e), lc.top)
-                            continue
-                    got = ctx.get(sv)
-                    out.count("sim_set")
-                    if got != want:
-                        out.violation(lc.key("assign_field", api="ctx.set",
-                                             field_kind=lc.paths[j]["kind"] if not is_leaf(node) else node["name"]),
-                                      "%s: pattern %d, ctx.set(view%r, %r) gives %r, specification AssignField = %r" % (
-                                          lc.desc, raw, list(lc.pkeys[j]), val, got, want), lc.top)
-            # the whole view: ctx.set(view, constant / initialiser)
-            for x, raw in enumerate(tab["xraws"][:4]):
-                t = tab["tmpl"]
-                if not tab["initok"][raw]:
-                    continue
-                want = tab["packed"][raw]
-                for val in (lc.layout.from_bits(want), lc.fill(lc.top, t, tab["vals"][raw], True)):
-                    try:
-                        ctx.set(sv, 0)
-                        ctx.set(d.sig, val)
-                        got = ctx.get(sv)
-                        out.count("sim_set")
-                        if got != want:
-                            out.violation(lc.key("const_from_fields", api="ctx.set"),
-                                          "%s: ctx.set(view, %r) gives %r, specification %r" % (lc.desc, val, got, want), lc.top)
-                    except Exception as e:
-                        if isinstance(val, data.Const):
-                            out.violation({"clause": "const_of_from_bits", "layout_kind": lc.kind, "error": _exc(e), "op": "ctx.set"},
-                                          "%s: ctx.set(view, layout.from_bits(%d)) raised %r" % (lc.desc, want, e), lc.top)
-                        elif lc.has_signed_enum:
-                            out.violation({"clause": "signed_enum_field", "op": "const_init", "error": _exc(e)},
-                                          "%s: ctx.set(view, %r) raised %r" % (lc.desc, val, e), lc.top)
-                        else:
-                            out.violation(lc.key("const_from_fields", api="ctx.set", error=_exc(e)),
-                                          "%s: ctx.set(view, %r) raised %r" % (lc.desc, val, e), lc.top)
+            guard(d, _sim_sets, ctx)
 
     sim.add_testbench(tb)
     sim.run()
@@ -820,7 +867,7 @@ def check_enum(rec, tab, out, opts):
         rtlil.convert(m, ports=[Value.cast(a), Value.cast(b)] + list(outs.values()))
         out.count("rtlil_designs")
     except Exception as e:
-        bad("rtlil_convert", "rtlil.convert raised %r" % (e,), error=_exc(e))
+        bad("rtlil_convert", "rtlil.convert of a design with Signal(%s) raised %r" % (name, e), error=_exc(e), signed_enum=rec["s"])
     sim = Simulator(m)
     vs = tab["valid"]
     pyop = {"or": operator.or_, "and": operator.and_, "xor": operator.xor}
@@ -919,7 +966,12 @@ def check_states(states, out, opts):
         if not is_leaf_only(top):
             out.count("layouts_nested")
         t0 = time.process_time()
-        check_consts(lc, out, opts)
+        try:
+            check_consts(lc, out, opts)
+        except MachineryError:
+            raise
+        except Exception as e:
+            out.violation(lc.key("const_exception", error=_exc(e)), "%s: constant-level checks raised %r" % (lc.desc, e), top)
         out.count("cpu_const_s", time.process_time() - t0)
         cases.append(lc)
     for i in range(0, len(cases), opts["batch"]):
@@ -958,12 +1010,16 @@ EXTENDS DataLayout
 SelTops == <<
 %s
 >>
-SelInit == /\\ items = <<>>
-           /\\ \\E i \\in 1..Len(SelTops) :
-                 /\\ IsLeaf(SelTops[i]) \\/ Size(SelTops[i]) <= MaxBits
-                 /\\ top = SelTops[i]
-                 /\\ tab = IF IsLeaf(SelTops[i]) THEN EnumTable(SelTops[i]) ELSE LayoutTable(SelTops[i])
-SelSpec == SelInit /\\ [][UNCHANGED vars]_vars
+SelInit == items = <<>> /\\ top = NoTop /\\ tab = <<>>
+SelPick == /\\ top = NoTop /\\ items = <<>>              \\* one state per layout, so that TLC's workers share the tabulation
+           /\\ \\E i \\in 1..Len(SelTops) : items' = <<i>> /\\ UNCHANGED <<top, tab>>
+SelTab  == /\\ top = NoTop /\\ Len(items) = 1
+           /\\ LET t == SelTops[items[1]] IN
+                 /\\ IsLeaf(t) \\/ Size(t) <= MaxBits
+                 /\\ top' = t
+                 /\\ tab' = IF IsLeaf(t) THEN EnumTable(t) ELSE LayoutTable(t)
+                 /\\ UNCHANGED items
+SelSpec == SelInit /\\ [][SelPick \\/ SelTab]_vars
 ====
 """
 
@@ -1004,7 +1060,7 @@ def random_tree(rng, depth, budget):
     return tree(depth, budget)
 
 
-def dispatch(ctx, dump, opts, chunk):
+def dispatch(ctx, dump, opts, chunk, acc):
     ranges = index_dump(dump)
     jobs = [(dump, ranges[i:i + chunk], opts) for i in range(0, len(ranges), chunk)]
     # big states last in a chunk does not matter; interleave so that every worker gets a mix
@@ -1014,41 +1070,37 @@ def dispatch(ctx, dump, opts, chunk):
         for k, v in n.items():
             total[k] = total.get(k, 0) + v
         for cnt, key, desc, rep in viol:
-            ctx.violation(key, desc + ("  [%d occurrence(s) in this batch]" % cnt if cnt > 1 else ""), replay=rep)
+            js = json.dumps(key, sort_keys=True)
+            if js in acc:
+                acc[js][0] += cnt
+            else:
+                acc[js] = [cnt, key, desc, rep]
     return total, len(ranges)
+
+
+def report(ctx, acc):
+    """one ctx.violation per distinct key (the framework keeps the first 50 reports)"""
+    for js in sorted(acc):
+        cnt, key, desc, rep = acc[js]
+        ctx.violation(key, desc + ("  [%d occurrence(s) in this run]" % cnt if cnt > 1 else ""), replay=rep)
 
 
 def run(ctx):
     th = ctx.thorough
     p = params(th)
-    opts = {"rtlil": True, "asg_rounds": 40 if th else 26, "set_rounds": 6 if th else 4, "batch": 24,
-            "seed": ctx.seed % 1000}
+    opts = {"rtlil": True, "asg_rounds": 32 if th else 24, "set_rounds": 4, "batch": 24, "seed": ctx.seed % 1000}
     totals = {}
+    acc = {}
 
     def add(t):
         for k, v in t.items():
             totals[k] = totals.get(k, 0) + v
 
-    # ---------------- mc: theorems over the family; mutants --------------------------------------
+    # ---------------- mc: theorems over the family; mutants; random trees -------------------------
+    from concurrent.futures import ThreadPoolExecutor
     small = dict(p, MaxFields=2, NestedMaxFields=0, MaxNested=0, MaxBits=6, InnerLeaves=["u1"], Leaves=["u1", "s2", "f3"])
-    for mutant, inv in (("array_stride", "Placement"), ("union_size_sum", "Placement"), ("flag_not_unmasked", "FlagLaws")):
-        ctx.tlc("DataLayout", stage="mc/mutant-" + mutant, cfg_text=cfg_text(dict(small, Mutant=mutant), invariants=[inv]), workers=2,
-                expect_violation=inv, count=False)
     families = [("A", p)] + ([("B", params_b(th))] if th else [])
-    n_states = 0
-    for fam, pp in families:
-        dump = os.path.join(ctx.tmp, "dl_%s" % fam)
-        r = ctx.tlc("DataLayout", stage="mc/family-" + fam, cfg_text=cfg_text(pp), workers=16,
-                    args=("-coverage", "1", "-dump", dump), timeout=3000)
-        ctx.require_actions(r, ACTIONS if pp["EnumClasses"] else ACTIONS[:-1], "mc/family-" + fam)
-        t, n = dispatch(ctx, dump + ".dump", opts, chunk=40 if th else 24)
-        n_states += n
-        add(t)
-        ctx.cov["stages"]["mc/family-" + fam]["replayed"] = t
-        os.unlink(dump + ".dump")
-
-    # ---------------- random: deeper trees, tabulated by TLC with the same operators -------------
-    n_rand = 1500 if th else 120
+    n_rand = 1500 if th else 100
     tops, seen = [], set()
     guard = 0
     while len(tops) < n_rand and guard < 100 * n_rand:
@@ -1057,12 +1109,46 @@ def run(ctx):
         if est <= p["MaxBits"] and t not in seen and t.count("(") >= 3:
             seen.add(t)
             tops.append(t)
-    dump = os.path.join(ctx.tmp, "dl_rand")
-    r = tlc_selected(ctx, tops, p, "random/tabulate", dump)
-    t, n = dispatch(ctx, dump + ".dump", opts, chunk=16)
+
+    def mutant(job):
+        name, inv = job
+        return ctx.tlc("DataLayout", stage="mc/mutant-" + name, cfg_text=cfg_text(dict(small, Mutant=name), invariants=[inv]),
+                       workers=1, expect_violation=inv, count=False)
+
+    def family(job):
+        fam, pp = job
+        dump = os.path.join(ctx.tmp, "dl_%s" % fam)
+        r = ctx.tlc("DataLayout", stage="mc/family-" + fam, cfg_text=cfg_text(pp), workers=16,
+                    args=("-coverage", "1", "-dump", dump), timeout=3000)
+        ctx.require_actions(r, ACTIONS if pp["EnumClasses"] else ACTIONS[:-1], "mc/family-" + fam)
+        return dump + ".dump"
+
+    def rand(_):
+        dump = os.path.join(ctx.tmp, "dl_rand")
+        tlc_selected(ctx, tops, p, "random/tabulate", dump)
+        return dump + ".dump"
+
+    with ThreadPoolExecutor(8) as ex:
+        fm = [ex.submit(mutant, j) for j in (("array_stride", "Placement"), ("union_size_sum", "Placement"),
+                                             ("flag_not_unmasked", "FlagLaws"))]
+        ff = [ex.submit(family, j) for j in families]
+        fr = ex.submit(rand, None)
+        for f in fm:
+            f.result()
+        rand_dump = fr.result()
+        for (fam, pp), f in zip(families, ff):
+            dump = f.result()
+            t, n = dispatch(ctx, dump, opts, 32 if th else 24, acc)
+            add(t)
+            ctx.cov["stages"]["mc/family-" + fam]["replayed"] = t
+            os.unlink(dump)
+    t, n = dispatch(ctx, rand_dump, opts, 16 if th else 8, acc)
     add(t)
     ctx.cov["stages"]["random/tabulate"]["replayed"] = t
     ctx.cov["stages"]["random/tabulate"]["generated_trees"] = len(tops)
+    dump = rand_dump[:-5]
+
+    report(ctx, acc)
 
     # ---------------- binding demonstration: a corrupted table must be reported -------------------
     demo = Out()
@@ -1141,4 +1227,6 @@ def replay(ctx, rep):
         if ctx.violation(key, desc) == "violation":
             rc = 1
     print("replay verdict: %s" % ("VIOLATION property=C15 replay=(same)" if rc else "no (unknown) violation reproduced"))
+    import shutil
+    shutil.rmtree(ctx.tmp, ignore_errors=True)
     return rc
